@@ -89,6 +89,29 @@ Definition NODES := "__splink__df_nodes_with_composite_ids".
 Definition EDGES := "__splink__df_edges_from_predict".
 Definition CCFINAL := "__splink__clustering_output_final".
 Definition CLUSTERED := "__splink__df_clustered_with_input_data".
+Definition CART := "__splink__cartesian_product".
+Definition TST := "__splink__truth_space_table".
+Definition PFLC := "__splink__predictions_from_label_column_fp_fn_only".
+Definition FPFN := "__splink__labels_with_fp_fn_status".
+Definition LABELS := "__splink__df_labels".
+Definition MU := "__splink__m_u_counts".
+Definition SELFLINK := "__splink__df_self_link".
+Definition UNLINK := "__splink__df_unlinkables_proportions_cumulative".
+Definition FREQ := "__splink__df_all_column_value_frequencies".
+Definition PCT := "__splink__df_percentiles".
+Definition TOPN := "__splink__df_top_n".
+Definition BOTN := "__splink__df_bottom_n".
+Definition COMPL := "__splink__df_all_column_completeness_renames".
+Definition POSTF := "__splink__comparions_post_filter".
+Definition BLOCKCOUNTS := "__splink__block_counts".
+Definition CAAT := "__splink__clusters_at_all_thresholds".
+Definition GMN := "__splink__graph_metrics_nodes".
+Definition NIM := "__splink__nodes_integer_mapping".
+Definition TRUNC := "__splink__truncated_edges".
+Definition EWM := "__splink__edges_with_mapped_ids".
+Definition BRIDGES := "__splink__bridges".
+Definition GME := "__splink__graph_metrics_edges".
+Definition GMC := "__splink__graph_metrics_clusters".
 
 (* "select * from __splink__df_concat_with_tf" read under the name __splink__df_concat
    (enqueue_df_concat) has the rows and columns of __splink__df_concat: the left joins onto
@@ -310,6 +333,7 @@ Section Hash.
   Inductive iref :=
   | RReg (i : nat)                      (* a frame obtained earlier in this operation *)
   | RConcatInline                       (* vertically_concatenate_sql over the input tables, as a CTE *)
+  | RInputsRaw                          (* the input tables read by physical name *)
   | RBlockedInline (p : nat)            (* blocking CTE over the inline concat (blocking analysis) *)
   | RConcat                             (* vertically_concatenate.enqueue_df_concat *)
   | RTfOrInline (c : string)            (* term_frequencies.compute_all_term_frequencies_sqls *)
@@ -342,6 +366,7 @@ Section Hash.
         | None => r_nil
         end
     | RConcatInline => r_tree (concat_tree s) [CONCAT]
+    | RInputsRaw => {| r_trees := map Leaf (st_inputs s); r_events := []; r_aliases := []; r_inline := [] |}
     | RBlockedInline p => r_tree (Cte BLOCKED p [concat_tree s]) [CONCAT; BLOCKED]
     | RConcat =>
         match aget (st_cache s) (named CONCAT) with
@@ -379,11 +404,14 @@ Section Hash.
   | INamedOrExec (n : string) (p : nat) (ins : list iref) (mids : list string)
       (* compute_df_concat_with_tf / compute_tf_table: named entry, else run and store named *)
   | IExec (n : string) (p : nat) (ins : list iref) (mids : list string) (use_cache : bool)
+  | IComputeConcat                             (* vertically_concatenate.compute_df_concat *)
+  | IFreshUid                                  (* an ascii_uid(8) drawn for names inside the SQL text *)
   | IDrop (i : nat)
   | IRegisterTF (c : string) (ver : nat)       (* register_term_frequency_lookup, overwrite=False *)
   | IRegisterRecords (base : string)           (* register_table(records, base_<uid>, overwrite=True) *)
   | ISetParams (p : nat)
   | IInvalidate
+  | IInvalidateKeepResults                     (* MODEL VARIANT of a defective tree, see InvalidateKeepingResults *)
   | IDeleteTables
   | IChangeInput (ver : nat)                   (* the caller replaces the rows of every input table *)
   | ISecondLinker (inputs : list lname) (tfcols : list string) (p : nat)
@@ -414,6 +442,20 @@ Section Hash.
         let r := resolve_all s regs ins in
         let '(s1, h, ev) := exec_pipeline s n (the_tree n p r) (r_aliases r) (r_inline r ++ mids) uc in
         (s1, regs ++ [h], tr ++ r_events r ++ ev)
+    | IComputeConcat =>
+        match aget (st_cache s) (named CONCAT) with
+        | Some h => (s, regs ++ [h], tr ++ [Hit CONCAT (pbase (h_phys h))])
+        | None =>
+            match aget (st_cache s) (named CWTF) with
+            | Some h =>
+                (s, regs ++ [{| h_templ := CONCAT; h_phys := h_phys h; h_src := h_src h; h_cbs := h_cbs h |}],
+                 tr ++ [Hit CONCAT (pbase (h_phys h))])
+            | None =>
+                let '(s1, h, ev) := exec_pipeline s CONCAT (concat_tree s) [] [] true in
+                (set_cache s1 (aset (st_cache s1) (named CONCAT) h), regs ++ [h], tr ++ ev)
+            end
+        end
+    | IFreshUid => (set_luid_ctr s (st_luid s) (S (st_ctr s)), regs, tr)
     | IDrop i =>
         match nth_error regs i with
         | Some h => let '(s1, ev) := drop_handle s h in (s1, regs, tr ++ ev)
@@ -435,6 +477,9 @@ Section Hash.
         (set_luid_ctr s1 (st_luid s1) (S u), regs ++ [h], tr)
     | ISetParams p => (set_params s p, regs, tr)
     | IInvalidate => (invalidate s, regs, tr)
+    | IInvalidateKeepResults =>
+        let keep := filter (fun kv => negb (is_hashed (fst kv)) || String.eqb (pbase (fst kv)) PREDICT) (st_db s) in
+        (set_cache (set_db (set_luid_ctr s (st_ctr s) (S (st_ctr s))) keep) [], regs, tr)
     | IDeleteTables => (delete_tables s, regs, tr)
     | IChangeInput ver =>
         (set_db s (fold_left (fun d l => aset d (PL l) {| e_prov := PInput (lbase l) ver; e_origin := User |})
@@ -462,7 +507,23 @@ Section Hash.
   | FindMatches
   | CompareTwo (flag : bool)
   | Cluster (thr : nat)                           (* predict() then cluster_pairwise_predictions_at_threshold *)
+  | AccuracyColumn                                (* evaluation.accuracy_analysis_from_labels_column (table output) *)
+  | ErrorsColumn                                  (* evaluation.prediction_errors_from_labels_column *)
+  | AccuracyTable                                 (* evaluation.accuracy_analysis_from_labels_table *)
+  | ErrorsTable                                   (* evaluation.prediction_errors_from_labels_table *)
+  | EstimateMColumn (newparams : nat)             (* training.estimate_m_from_label_column *)
+  | EstimateMPairwise (newparams : nat)           (* training.estimate_m_from_pairwise_labels *)
+  | Unlinkables                                   (* evaluation.unlinkables_chart *)
+  | Profile                                       (* exploratory.profile_columns(table, db_api) *)
+  | Completeness                                  (* exploratory.completeness_chart(table, db_api) *)
+  | BlockingCount (rule : nat)                    (* blocking_analysis.count_comparisons_from_blocking_rule *)
+  | BlockingCumulative                            (* blocking_analysis.cumulative_comparisons_to_be_scored_from_blocking_rules_data *)
+  | BlockingLargest (rule : nat)                  (* blocking_analysis.n_largest_blocks *)
+  | ClusterMulti                                  (* predict() then clustering.cluster_pairwise_predictions_at_multiple_thresholds *)
+  | GraphMetrics (thr : nat)                      (* predict(), cluster, compute_graph_metrics (repaired tree, 7.17) *)
   | InvalidateCache
+  | InvalidateKeepingResults                      (* NOT the code: a defective invalidate_cache that clears the cache but leaves
+                                                     the __splink__df_predict tables in the database (same _cache_uid) *)
   | DeleteTables                                  (* delete_tables_created_by_splink_from_db *)
   | ChangeInput (ver : nat)                       (* caller changes the input rows, nothing else *)
   | ChangeInputInvalidate (ver : nat)             (* ... and calls invalidate_cache, as documented *)
@@ -479,9 +540,71 @@ Section Hash.
       IExec PREDICT (st_params s) [RReg 1; RReg 0] ["blocked_with_cols"; CVV; MWP] true;
       IDrop 1 ].
 
+  (* predict() of the copy of the linker that blocks on the label column as well *)
+  Definition label_predict_prog (s : state) (base : nat) : list instr :=
+    [ cwtf_instr s;
+      IExec BLOCKED 50 [RReg base] [] true;
+      IExec PREDICT (st_params s) [RReg (S base); RReg base] ["blocked_with_cols"; CVV; MWP] true;
+      IDrop (S base) ].
+
+  Definition cluster_prog (s : state) (thr : nat) : list instr :=
+    predict_prog s ++
+    [ IExec NODES 0 [RConcat] [] true;
+      IExec EDGES thr [RReg 2] [] true;
+      IExec CCFINAL thr [RReg 4; RReg 3] [] true;
+      IDrop 4;
+      IDrop 3;
+      IExec CLUSTERED thr [RReg 5; RConcat] [] true;
+      IDrop 5 ].
+
+  (* the exploratory / blocking-analysis functions register their input tables under fresh aliases
+     (__splink__<uid>) when they get a list of tables; with more than one table the aliases are literals of the
+     SQL ('alias' as source_dataset), so every call produces new SQL text *)
+  Definition fsalt (s : state) : nat :=
+    match st_inputs s with _ :: _ :: _ => 1000 + st_ctr s | _ => 0 end.
+
   Definition prog_of_op (s : state) (o : op) : list instr :=
     match o with
     | Predict => predict_prog s
+    | AccuracyColumn =>
+        [ IComputeConcat; IExec CART 0 [RReg 0] [] true; IDrop 1 ] ++ label_predict_prog s 2 ++
+        [ IExec TST 0 [RReg 4] [] true ]
+    | ErrorsColumn => label_predict_prog s 0 ++ [ IExec PFLC 0 [RReg 2] [] true ]
+    | AccuracyTable =>
+        [ IRegisterRecords LABELS; cwtf_instr s; IExec TST (S (st_params s)) [RReg 1; RReg 0] [] true ]
+    | ErrorsTable =>
+        [ IRegisterRecords LABELS; cwtf_instr s; IExec FPFN (st_params s) [RReg 1; RReg 0] [] true ]
+    | EstimateMColumn p' =>
+        [ cwtf_instr s; cwtf_instr s; IExec BLOCKED 60 [RReg 1] [] true; IExec MU 0 [RReg 2; RReg 1] [] true;
+          ISetParams p' ]
+    | EstimateMPairwise p' =>
+        [ IRegisterRecords LABELS; cwtf_instr s; IExec MU 1 [RReg 1; RReg 0] [] true; ISetParams p' ]
+    | Unlinkables =>
+        [ cwtf_instr s; IExec BLOCKED 70 [RReg 0] [] true; IExec SELFLINK (st_params s) [RReg 1; RReg 0] [] true;
+          IExec UNLINK 0 [RReg 2] [] false; IDrop 3 ]
+    | Profile =>
+        [ IFreshUid; IExec FREQ (fsalt s) [RConcatInline] [] true; IExec PCT 0 [RReg 0] [] true; IExec TOPN 0 [RReg 0] [] true;
+          IExec BOTN 0 [RReg 0] [] true; IDeleteTables ]
+    | Completeness => [ IFreshUid; IExec COMPL (fsalt s) [RConcatInline] [] true ]
+    | BlockingCount rule =>
+        [ IFreshUid; IExec TOTAL (200 + rule + fsalt s) [RConcatInline] [] true; IDrop 0;
+          IExec POSTF (rule + fsalt s) [RConcatInline] [] true; IDrop 1 ]
+    | BlockingCumulative =>
+        [ IFreshUid; IExec TOTAL (200 + fsalt s) [RConcatInline] [] true; IDrop 0;
+          IExec TOTAL (201 + fsalt s) [RConcatInline] [] true; IDrop 1;
+          IExec DFCOUNT (fsalt s) [RConcatInline] [] true; IExec CUM (300 + fsalt s) [RBlockedInline (300 + fsalt s)] [] true ]
+    | BlockingLargest rule => [ IFreshUid; IExec BLOCKCOUNTS (rule + fsalt s) [RConcatInline] [] true ]
+    | ClusterMulti =>
+        predict_prog s ++ [ IFreshUid; IExec CAAT (1000 + st_ctr s) [RReg 2; RInputsRaw] [] true ]
+    | GraphMetrics thr =>
+        cluster_prog s thr ++
+        [ IExec GMN thr [RReg 2; RReg 6] [] true;
+          IExec NIM 0 [RReg 7] [] true;
+          IExec TRUNC thr [RReg 2] [] true;
+          IExec EWM 0 [RReg 8; RReg 9] [] true;
+          IExec BRIDGES 0 [RReg 10] [] false;
+          IExec GME 0 [RReg 8; RReg 11; RReg 9] [] true;
+          IExec GMC 0 [RReg 7] [] true ]
     | DeterministicLink =>
         [ cwtf_instr s;
           IExec BLOCKED 0 [RReg 0] [] true;
@@ -527,16 +650,9 @@ Section Hash.
                   "__splink__compare_two_records_left_with_tf_uid_fix";
                   "__splink__compare_two_records_right_with_tf_uid_fix";
                   "__splink__compare_two_records_blocked"; CVV; MWP] ++ (if flag then [PREDICT] else [])) false ]
-    | Cluster thr =>
-        predict_prog s ++
-        [ IExec NODES 0 [RConcat] [] true;
-          IExec EDGES thr [RReg 2] [] true;
-          IExec CCFINAL thr [RReg 4; RReg 3] [] true;
-          IDrop 4;
-          IDrop 3;
-          IExec CLUSTERED thr [RReg 5; RConcat] [] true;
-          IDrop 5 ]
+    | Cluster thr => cluster_prog s thr
     | InvalidateCache => [ IInvalidate ]
+    | InvalidateKeepingResults => [ IInvalidateKeepResults ]
     | DeleteTables => [ IDeleteTables ]
     | ChangeInput ver => [ IChangeInput ver ]
     | ChangeInputInvalidate ver => [ IChangeInput ver; IInvalidate ]
@@ -596,7 +712,7 @@ Section Hash.
   Definition is_second_linker (o : op) : bool :=
     match o with SecondLinker _ _ _ => true | _ => false end.
   Definition is_debug_switch (o : op) : bool :=
-    match o with SetDebug _ => true | _ => false end.
+    match o with SetDebug _ | InvalidateKeepingResults => true | _ => false end.
   (* finding (a): a lookup registered while a Splink-computed __splink__df_concat_with_tf is cached *)
   Definition stale_cwtf_risk (s : state) (o : op) : bool :=
     match o with
